@@ -130,10 +130,19 @@ class Ctx:
         for m in prop_modules:
             path = os.path.join(LEAN, m.replace(".", "/") + ".lean")
             src = open(path).read()
-            ns = re.findall(r"^namespace\s+(\S+)", src, re.M)
-            prefix = (ns[0] + ".") if ns else ""
-            for name in re.findall(r"^theorem\s+(\S+)", src, re.M):
-                thms.append((m, prefix + name))
+            stack = []
+            for line in src.splitlines():
+                mm = re.match(r"^namespace\s+(\S+)", line)
+                if mm:
+                    stack.append(mm.group(1))
+                    continue
+                mm = re.match(r"^end\s+(\S+)", line)
+                if mm and stack and stack[-1] == mm.group(1):
+                    stack.pop()
+                    continue
+                mm = re.match(r"^theorem\s+(\S+)", line)
+                if mm:
+                    thms.append((m, ".".join(stack + [mm.group(1)])))
         forbidden = scan_forbidden()
         ok, log = self.build_lean(prop_modules)
         res = {"build_ok": ok, "forbidden": forbidden, "theorems": [], "log": log[-4000:] if not ok else ""}
